@@ -1,4 +1,4 @@
-import SaModel.Lemmas.C18BlameStruct
+import SaModel.Lemmas.C18BlameUnion
 /-
 C18, blame against the specification: the mutual recursion over the serde value.
 
@@ -15,9 +15,10 @@ def frag : SVal → Bool
   | .newtypeStruct _ v => frag v
   | .seq xs => frags xs
   | .record _ fs => fragf fs
-  | .tuple _ | .tupleStruct _ _ | .map _ | .mapRaw _ | .unitVariant _ _ _ | .newtypeVariant _ _ _ _
+  | .newtypeVariant _ _ _ v => frag v
+  | .tuple _ | .tupleStruct _ _ | .map _ | .mapRaw _
   | .tupleVariant _ _ _ _ | .structVariant _ _ _ _ => false
-  | .none | .unit | .bool _ | .int _ _ | .f32 _ | .f64 _ | .char _ | .str _ | .bytes _ | .unitStruct _ => true
+  | .unitVariant _ _ _ | .none | .unit | .bool _ | .int _ _ | .f32 _ | .f64 _ | .char _ | .str _ | .bytes _ | .unitStruct _ => true
 def frags : SVals → Bool
   | .nil => true
   | .cons x r => frag x && frags r
@@ -76,6 +77,26 @@ theorem bytes_self_mem {ext : Ext} {path : String} {dt n md} {bs : Bytes}
   cases dt
   case list f => obtain ⟨a, b, c, d⟩ := f; simp [blameDT, hi]
   case largeList f => obtain ⟨a, b, c, d⟩ := f; simp [blameDT, hi]
+  all_goals simp [blameDT, hi]
+
+def isUnion : B → Bool
+  | .union _ _ _ _ _ => true
+  | _ => false
+
+theorem unitVariant_self_mem {ext : Ext} {b : B} {path : String} {dt n md} {a : String} {i : Nat} {vn : String}
+    (hsh : Shape b dt n md) (hb : isUnion b = false) (hi : (interpDT ext dt n md (.unitVariant a i vn)).isOk = false) :
+    path ∈ blameDT ext path dt n md (.unitVariant a i vn) := by
+  cases dt
+  case union ufs mode =>
+    obtain ⟨_, _, _, _, _, rfl⟩ := Shape_union_form hsh; simp [isUnion] at hb
+  all_goals simp [blameDT, hi]
+
+theorem newtypeVariant_self_mem {ext : Ext} {b : B} {path : String} {dt n md} {a : String} {i : Nat} {vn : String} {v : SVal}
+    (hsh : Shape b dt n md) (hb : isUnion b = false) (hi : (interpDT ext dt n md (.newtypeVariant a i vn v)).isOk = false) :
+    path ∈ blameDT ext path dt n md (.newtypeVariant a i vn v) := by
+  cases dt
+  case union ufs mode =>
+    obtain ⟨_, _, _, _, _, rfl⟩ := Shape_union_form hsh; simp [isUnion] at hb
   all_goals simp [blameDT, hi]
 
 /-- every call that is a plain scalar call on every builder -/
@@ -281,8 +302,65 @@ theorem push_bl : ∀ (x : SVal), frag x = true → noRaw x = true → ∀ (b : 
       | list _ _ _ _ _ _ | fixedSizeList _ _ _ _ _ _ _ | map _ _ _ _ _ _ | dictionary _ _ _ _ | union _ _ _ _ _ =>
         refine Bl.ctx_self _ (by rw [ha.path]; exact record_self_mem hg.shape rfl hi') ?_
         unfold recordWith; exact NoCtx.bl _
-  | .tuple _, hf, _ | .tupleStruct _ _, hf, _ | .map _, hf, _ | .mapRaw _, hf, _ | .unitVariant _ _ _, hf, _
-  | .newtypeVariant _ _ _ _, hf, _ | .tupleVariant _ _ _ _, hf, _ | .structVariant _ _ _ _, hf, _ => by
+  | .unitVariant a i vn, _, hraw => by
+    intro b path dt n md hg ha hcap
+    by_cases hi : (interpDT ext dt n md (.unitVariant a i vn)).isOk = true
+    · exact bl_of_interp_ok hg hraw hcap hi
+    · have hi' := not_isOk_false hi
+      unfold push
+      cases b with
+      | union p fs types offs cur =>
+        have hsh := hg.shape
+        simp only [Shape] at hsh
+        obtain ⟨ufs, mode, rfl, _⟩ := hsh
+        refine union_row_bl (i := i) (pc := fun c => match c with
+            | .unknownVariant _ => ctx c.ann (SaModel.fail "Unknown variant does not support serialize_unit")
+            | _ => pushNone c) hg ha (fun hn => by simp [blameDT, hi', hn]) (fun tid nm cdt cn cmd c hufs hgc hac _ => ?_)
+          (fun c msg => ?_)
+        · have hS : blameDT ext path (.union ufs mode) n md (.unitVariant a i vn) = [path ++ "." ++ childName nm] := by
+            simp [blameDT, hi', hufs]
+          rw [hS]
+          split
+          · exact Bl.ctx_self _ (by rw [hac.path]; exact List.mem_singleton.2 rfl) (NoCtx.bl _)
+          · exact pushNone_bl hgc hac
+        · split
+          · rw [ann_eq_posAnn]; exact ctx_never_plain _ _ _
+          · exact pushNone_never_plain c msg
+      | null _ _ | unknownVariant _ | leaf _ _ _ _ | bytes _ _ _ _ _ | bytesView _ _ _ _ _ | fixedSizeBinary _ _ _ _ _ _
+      | list _ _ _ _ _ _ | fixedSizeList _ _ _ _ _ _ _ | map _ _ _ _ _ _ | struct _ _ _ _ _ _ _ | dictionary _ _ _ _ =>
+        exact Bl.ctx_self _ (by rw [ha.path]; exact unitVariant_self_mem hg.shape rfl hi') (NoCtx.bl _)
+  | .newtypeVariant a i vn v, hf, hraw => by
+    intro b path dt n md hg ha hcap
+    have hf' : frag v = true := by simpa [frag] using hf
+    have hraw' : noRaw v = true := by simpa [noRaw] using hraw
+    by_cases hi : (interpDT ext dt n md (.newtypeVariant a i vn v)).isOk = true
+    · exact bl_of_interp_ok hg hraw hcap hi
+    · have hi' := not_isOk_false hi
+      simp only [vsize] at hcap
+      unfold push
+      cases b with
+      | union p fs types offs cur =>
+        have hsh := hg.shape
+        simp only [Shape] at hsh
+        obtain ⟨ufs, mode, rfl, _⟩ := hsh
+        simp only [room] at hcap
+        refine union_row_bl (i := i) (pc := fun c => push ext c v) hg ha (fun hn => by simp [blameDT, hi', hn])
+          (fun tid nm cdt cn cmd c hufs hgc hac hrc => ?_) (fun c msg => push_never_plain ext v c msg)
+        have hS : blameDT ext path (.union ufs mode) n md (.newtypeVariant a i vn v) =
+            (if (blameDT ext (path ++ "." ++ childName nm) cdt cn cmd v).isEmpty then [path]
+             else blameDT ext (path ++ "." ++ childName nm) cdt cn cmd v) := by
+          simp [blameDT, hi', hufs]
+        rw [hS]
+        exact Bl.mono mem_ite_inner (push_bl v hf' hraw' c _ cdt cn cmd hgc hac (by omega))
+      | bytes _ ty _ _ _ =>
+        exact Bl.ctx_self _ (by rw [ha.path]; exact newtypeVariant_self_mem hg.shape rfl hi') (NoCtx.bl _)
+      | bytesView _ ty _ _ _ =>
+        exact Bl.ctx_self _ (by rw [ha.path]; exact newtypeVariant_self_mem hg.shape rfl hi') (NoCtx.bl _)
+      | null _ _ | unknownVariant _ | leaf _ _ _ _ | fixedSizeBinary _ _ _ _ _ _
+      | list _ _ _ _ _ _ | fixedSizeList _ _ _ _ _ _ _ | map _ _ _ _ _ _ | struct _ _ _ _ _ _ _ | dictionary _ _ _ _ =>
+        exact Bl.ctx_self _ (by rw [ha.path]; exact newtypeVariant_self_mem hg.shape rfl hi') (NoCtx.bl _)
+  | .tuple _, hf, _ | .tupleStruct _ _, hf, _ | .map _, hf, _ | .mapRaw _, hf, _
+  | .tupleVariant _ _ _ _, hf, _ | .structVariant _ _ _ _, hf, _ => by
     simp [frag] at hf
 theorem pushElems_bl : ∀ (xs : SVals), frags xs = true → noRaws xs = true → ∀ (large : Bool) (el : B) (offs : List Int)
     (cpath : String) (cdt : DataType) (cn : Bool) (cmd : Metadata), Good el cdt cn cmd → At cpath cdt cn cmd el →
